@@ -605,50 +605,59 @@ Qed.
 Theorem pdp_checker_complete i acts : pdp_wf i -> pdp_feasible i acts -> pdp_checker i acts = true.
 Proof.
   intros Hwf (Hv & Hend & Hprec). pose proof (proj1 (visits_each_once_nodup _ _) Hv) as (Hl & Hnd & _).
-  unfold pdp_checker. apply andb_true_intro. split; [apply andb_true_intro; split|].
+  pose proof Hwf as (_ & _ & Hpl & _).
+  unfold pdp_checker. apply andb_true_intro. split; [apply andb_true_intro; split; [apply andb_true_intro; split|]|].
+  - apply Nat.eqb_eq. rewrite Hl, Hpl. lia.
   - apply sorted_is_arange_iff. rewrite Hl. exact Hv.
   - apply mid_ok_of_end; assumption.
   - apply (pdp_prec_test i acts Hwf Hl). exact Hprec.
 Qed.
 
-(* accepted action lists of the instance's length are feasible routes *)
-Theorem pdp_checker_sound i acts :
-  pdp_wf i -> length (pdp_full i acts) = (pgen_n i + 1)%nat -> pdp_checker i acts = true -> pdp_feasible i acts.
+(* accepted => feasible route; no hypothesis on the length of the action list: the checker establishes it *)
+Theorem pdp_checker_sound i acts : pdp_wf i -> pdp_checker i acts = true -> pdp_feasible i acts.
 Proof.
-  intros Hwf Hl Hc. unfold pdp_checker in Hc. apply andb_prop in Hc as [Hc H3]. apply andb_prop in Hc as [H1 H2].
+  intros Hwf Hc. pose proof Hwf as (_ & _ & Hpl & _).
+  unfold pdp_checker in Hc. apply andb_prop in Hc as [Hc H3]. apply andb_prop in Hc as [Hc H2]. apply andb_prop in Hc as [H0 H1].
+  apply Nat.eqb_eq in H0. assert (Hl : length (pdp_full i acts) = (pgen_n i + 1)%nat) by lia.
   apply sorted_is_arange_iff in H1. rewrite Hl in H1. unfold pdp_feasible. split; [exact H1|]. split.
   - apply end_of_mid_ok; [|exact H2]. apply occ_In. destruct H1 as [Ho _]. rewrite (Ho 0%nat) by lia. lia.
   - apply (pdp_prec_test i acts Hwf Hl). exact H3.
 Qed.
 
+Corollary pdp_checker_rejects_wrong_length i acts :
+  pdp_wf i -> length (pdp_full i acts) <> (pgen_n i + 1)%nat -> pdp_checker i acts = false.
+Proof.
+  intros Hwf Hl. apply not_true_iff_false. intros Hc. destruct (pdp_checker_sound i acts Hwf Hc) as (Hv & _).
+  apply visits_each_once_nodup in Hv as (H & _). contradiction.
+Qed.
+
 Corollary pdp_checker_rejects_delivery_before_pickup i acts k :
-  pdp_wf i -> length (pdp_full i acts) = (pgen_n i + 1)%nat -> (1 <= k <= pgen_n i / 2)%nat ->
+  pdp_wf i -> (1 <= k <= pgen_n i / 2)%nat ->
   (pos (k + pgen_n i / 2) (pdp_full i acts) <= pos k (pdp_full i acts))%nat -> pdp_checker i acts = false.
 Proof.
-  intros Hwf Hl Hk Hp. apply not_true_iff_false. intros Hc. destruct (pdp_checker_sound i acts Hwf Hl Hc) as (_ & _ & H).
+  intros Hwf Hk Hp. apply not_true_iff_false. intros Hc. destruct (pdp_checker_sound i acts Hwf Hc) as (_ & _ & H).
   specialize (H k Hk). lia.
 Qed.
 
 Corollary pdp_checker_rejects_missing i acts j :
-  pdp_wf i -> length (pdp_full i acts) = (pgen_n i + 1)%nat -> (j <= pgen_n i)%nat -> ~ In j (pdp_full i acts) ->
-  pdp_checker i acts = false.
+  pdp_wf i -> (j <= pgen_n i)%nat -> ~ In j (pdp_full i acts) -> pdp_checker i acts = false.
 Proof.
-  intros Hwf Hl Hj Hn. apply not_true_iff_false. intros Hc. destruct (pdp_checker_sound i acts Hwf Hl Hc) as ([Ho _] & _).
+  intros Hwf Hj Hn. apply not_true_iff_false. intros Hc. destruct (pdp_checker_sound i acts Hwf Hc) as ([Ho _] & _).
   specialize (Ho j ltac:(lia)). apply occ_not_In in Hn. lia.
 Qed.
 
-Corollary pdp_checker_rejects_duplicate i acts j : (2 <= occ j (pdp_full i acts))%nat -> pdp_checker i acts = false.
+Corollary pdp_checker_rejects_duplicate i acts j : pdp_wf i -> (2 <= occ j (pdp_full i acts))%nat -> pdp_checker i acts = false.
 Proof.
-  intros Hd. apply not_true_iff_false. intros Hc. unfold pdp_checker in Hc. apply andb_prop in Hc as [Hc _]. apply andb_prop in Hc as [H1 _].
-  apply sorted_is_arange_iff, visits_each_once_nodup in H1 as (_ & Hnd & _). apply NoDup_occ_le1 with (x := j) in Hnd. lia.
+  intros Hwf Hd. apply not_true_iff_false. intros Hc. destruct (pdp_checker_sound i acts Hwf Hc) as (Hv & _).
+  apply visits_each_once_nodup in Hv as (_ & Hnd & _). apply NoDup_occ_le1 with (x := j) in Hnd. lia.
 Qed.
 
 Corollary pdp_checker_rejects_depot_inside i acts a b c :
-  pdp_wf i -> length (pdp_full i acts) = (pgen_n i + 1)%nat ->
+  pdp_wf i ->
   pdp_full i acts = (a :: b) ++ 0%nat :: c :: nil \/ (exists b', pdp_full i acts = (a :: b) ++ 0%nat :: c :: b') ->
   pdp_checker i acts = false.
 Proof.
-  intros Hwf Hl Hshape. apply not_true_iff_false. intros Hc. unfold pdp_checker in Hc. apply andb_prop in Hc as [Hc _].
+  intros Hwf Hshape. apply not_true_iff_false. intros Hc. unfold pdp_checker in Hc. apply andb_prop in Hc as [Hc _].
   apply andb_prop in Hc as [_ H2]. rewrite forallb_forall in H2.
   assert (In 0%nat (mid (pdp_full i acts))) as Hin.
   { destruct Hshape as [->|[b' ->]]; unfold mid; cbn [app tl].
@@ -659,20 +668,16 @@ Proof.
   specialize (H2 0%nat Hin). discriminate.
 Qed.
 
-(* without the length hypothesis soundness FAILS: the checker compares with arange(len) and pairs node k with node
-   k + len//2, so a route that simply omits the highest-numbered pair(s) is accepted
-   (4 customers, depot implicit, actions [1; 2]: customers 3 and 4 are never visited) *)
-Theorem pdp_checker_truncated_refuted :
-  exists (i : pdp_inst) (acts : list nat),
-    pdp_wfb i = true /\ pdp_checker i acts = true /\ ~ pdp_feasible i acts /\ ~ In 4%nat acts /\ pgen_n i = 4%nat.
-Proof.
-  exists {| pgen_n := 4; pforce := false;
-            pdist := [[0;1;2;3;4]; [1;0;1;2;3]; [2;1;0;1;2]; [3;2;1;0;1]; [4;3;2;1;0]] |}, [1; 2]%nat.
-  split; [vm_compute; reflexivity|]. split; [vm_compute; reflexivity|]. split; [|split].
-  - intros (Hv & _). apply visits_each_once_nodup in Hv as (Hl & _). vm_compute in Hl. discriminate.
-  - intros [H|[H|[]]]; discriminate.
-  - reflexivity.
-Qed.
+(* the witnesses of the repaired defect (fix 5d5f57a; known_findings.json: fixed): 4 customers, depot implicit,
+   actions [1; 2] (customers 3 and 4 never visited), and 2 customers, forced depot start, actions [0], used to be
+   accepted (the checker paired node k with node k + len//2 of the list it was given) and are now rejected *)
+Example pdp_checker_truncated_now_rejected :
+  let i := {| pgen_n := 4; pforce := false;
+              pdist := [[0;1;2;3;4]; [1;0;1;2;3]; [2;1;0;1;2]; [3;2;1;0;1]; [4;3;2;1;0]] |} in
+  let j := {| pgen_n := 2; pforce := true; pdist := [[0;1;2]; [1;0;1]; [2;1;0]] |} in
+  pdp_wfb i = true /\ pdp_checker i [1; 2]%nat = false /\ pdp_checker i [1; 2; 3; 4]%nat = true /\
+  pdp_wfb j = true /\ pdp_checker j [0]%nat = false /\ pdp_checker j [0; 1; 2]%nat = true.
+Proof. vm_compute. repeat split. Qed.
 
 (* ---------------------------------------------------------------- the executable twin of the specification *)
 Lemma depot_at_an_endb_ok full : full <> [] ->
@@ -730,11 +735,11 @@ Lemma pdp_checker_sound_unfolded :
     pdp_wf i ->
     let n := pgen_n i in
     let route := if pforce i then acts else 0%nat :: acts in
-    length route = (n + 1)%nat -> pdp_checker i acts = true ->
+    pdp_checker i acts = true ->
     ((forall j, (j < n + 1)%nat -> occ j route = 1%nat) /\ (forall a, In a route -> (a < n + 1)%nat)) /\
     (exists rest, route = 0%nat :: rest \/ route = rest ++ [0%nat]) /\
     (forall k, (1 <= k <= n / 2)%nat -> (pos k route < pos (k + n / 2) route)%nat).
-Proof. intros i acts Hwf n route Hl Hc. exact (pdp_checker_sound i acts Hwf Hl Hc). Qed.
+Proof. intros i acts Hwf n route Hc. exact (pdp_checker_sound i acts Hwf Hc). Qed.
 
 Lemma pdp_checker_complete_unfolded :
   forall (i : pdp_inst) (acts : list nat),
